@@ -49,6 +49,22 @@ def is_enzyme(sub) -> bool:
     return sub._type == ENZYME
 
 
+def ident(sub):
+    """What identifies a substance, spelt out (name, kind, molar mass, density, molar concentration): the oracles key their
+    own books by this tuple, never by the library's `==` / `hash` of the object, so that two substances the library wrongly
+    takes for one another stay two in the books."""
+    return (sub.name, sub._type, sub.mol_weight, sub.density, sub.concentration)
+
+
+def ident_totals(*contents):
+    t = {}
+    for c in contents:
+        for s, a in c.items():
+            k = ident(s)
+            t[k] = t.get(k, 0.0) + a
+    return t
+
+
 def specific_activity_of(sub) -> float:
     """U per g: as declared (the harness notes its own reading of the declaration string on enzymes it creates), else as
     stored by the library."""
